@@ -120,6 +120,11 @@ func WriteFile(name string, data []byte, perm os.FileMode) error {
 	if r.Fault("disk.write_fail", p) {
 		return pathErr("open", name, syscall.EACCES)
 	}
+	// the same failure restricted to certificate material (written by the cache facade while the
+	// resources are parsed, outside HAProxyUpdate)
+	if strings.Contains(p, "/var/lib/haproxy/") && r.Fault("disk.crt_write_fail", p) {
+		return pathErr("open", name, syscall.EACCES)
+	}
 	if r.Fault("disk.enospc", p) {
 		// os.WriteFile truncates first: the file is left empty.
 		d.mu.Lock()
